@@ -25,6 +25,10 @@ CLAIMED = {
    text="SGAbs.tla states Csr (duplicate add_edge returns false, rows strictly ascending, undirected edges in both rows, from_sorted_edges Ok iff strictly sorted and then equal to the incremental build, out-of-range endpoints Err/panic and unchanged) and adj::List (parallel edges kept, edge index = (from, rank) stable, find/update first match, insertion order); the real structures are driven with seeded random histories including 45-node hubs whose rows cross the 32-entry binary-search cutoff with probes around every neighbour; TLC validates every trace against SGAbs.",
    note="Trusted: TLC + Json module, harness recorder. Queries on absent Csr nodes are documented panics and are not driven. Defects found and fixed: adj::List::update_edge accepted an out-of-range target; Csr undirected edge_references doubled edges (C09).",
    design="4/C05", technique="TLA+ spec + trace validation of real executions"),
+ "C06": dict(
+   text="For every encoding (Graph, StableGraph, GraphMap, MatrixGraph, Csr, adj::List) x history (incl. vacant indices) of an abstract graph and every adaptor stack (identity via &, Frozen, Reversed, Reversed(Reversed), UndirectedAdaptor, NodeFiltered by parity, EdgeFiltered by weight, and the depth-2 stacks Reversed(NodeFiltered), NodeFiltered(Reversed), Reversed(EdgeFiltered), EdgeFiltered(Reversed), NodeFiltered(EdgeFiltered)) every visit-trait method the type implements is called (node_identifiers, node_references, edge_references, node_count, edge_count, node_bound/to_index/from_index, NodeCompactIndexable, neighbors, neighbors_directed, edges, edges_directed, adjacency_matrix + is_adjacent for all pairs, is_directed); TLC judges all of them against the one graph the adaptor must present (OracleC06.tla: g, reversed, symmetrised, node-induced, edge-restricted).",
+   note="Trusted: TLC, OracleC06.tla, harness id mapping. Filter predicates: parity of the abstract id, weight threshold. Rows of nodes excluded by a NodeFiltered are not judged. Recorded finding: UndirectedAdaptor (self-loops / undirected inner graphs doubled, incoming edges not re-oriented). Fixed: Reversed is_adjacent, StableGraph is_adjacent, MatrixGraph Incoming orientation, Csr undirected edge_references.",
+   design="4/C06", technique="TLA+ oracle spec evaluated by TLC on recorded (input, adaptor, output) triples"),
  "C07": dict(
    text="Cross-product driver: every algorithm covered by the oracles of C09, C10, C11, C12, C15, C16 and C20 is run on every encoding (Graph, StableGraph, MatrixGraph, GraphMap, Csr, adj::List) x history (fresh, shuffled, garbage-then-remove leaving vacant indices / swap renumbering) of the same abstract graph, with its own seeds; every run is judged by that algorithm's TLA+ oracle (equal where unique, equally valid and optimal where not), and a panic, hang or out-of-bounds on one encoding is a rejection. The algorithm x encoding applicability matrix is written to the evidence.",
    note="Trusted: the oracles of the individual properties. VF2 (Graph only by its bounds) and the walkers are covered in C13 / C08. Several sizing defects (node_count vs node_bound) were found this way and fixed; page_rank on index spaces with holes is a recorded finding.",
